@@ -1338,3 +1338,69 @@ def elemsize(repo, schema=None, sites=None):
                     "compiler/front_end/constraints.py", 0, "check_constraints")
     res.analysed = [hg.rel, "compiler/front_end/constraints.py"]
     return res
+
+
+def nullorder(repo):
+    """R-NULLORDER (C14): "Null" is a valid byte order exactly when no multi-unit value is ever read: the field is a single
+    *atomic* unit, or its (array element / own) base type is one unit wide.  For an array the field's total size says
+    nothing -- `0 [+1] UInt:16[] z` reads 16-bit elements through a NullByteOrderer (static_assert in the runtime).
+    _field_may_have_null_byte_order is evaluated over the abstract facts (is array, field size == 1, base type size ==
+    unit) and compared with that specification for all eight combinations."""
+    import itertools
+    res = RuleResult("R-NULLORDER")
+    m = repo.mod(ATTRIBUTE_CHECKER)
+    fs = [f for f in m.top_funcs() if f.name == "_field_may_have_null_byte_order"]
+    if not fs:
+        raise AnalysisError("_field_may_have_null_byte_order not found")
+    f = fs[0]
+
+    def ev(e, env):
+        if isinstance(e, ast.BoolOp):
+            vals = [ev(v, env) for v in e.values]
+            return all(vals) if isinstance(e.op, ast.And) else any(vals)
+        if isinstance(e, ast.UnaryOp) and isinstance(e.op, ast.Not):
+            return not ev(e.operand, env)
+        t = ast.unparse(e)
+        if isinstance(e, ast.Call) and t.endswith('has_field("array_type")') or t.endswith("has_field('array_type')"):
+            return env["array"]
+        if isinstance(e, ast.Call) and t.endswith("has_field('atomic_type')"):
+            return not env["array"]
+        if isinstance(e, ast.Call) and (call_name(e) or "").endswith("is_array"):
+            return env["array"]
+        if isinstance(e, ast.Call) and (call_name(e) or "").endswith("is_constant") and "location.size" in t:
+            return True
+        if isinstance(e, ast.Compare) and len(e.ops) == 1 and isinstance(e.ops[0], ast.Eq):
+            if "constant_value" in t and "location.size" in t and isinstance(e.comparators[0], ast.Constant) and e.comparators[0].value == 1:
+                return env["one"]
+            if "fixed_size_of_type_in_bits" in t and "get_base_type" in t and ast.unparse(e.comparators[0]) in ("unit", "type_definition.addressable_unit"):
+                return env["elem"]
+        raise AnalysisError(f"_field_may_have_null_byte_order: condition `{t[:80]}` not understood")
+
+    def run(stmts, env):
+        for st in stmts:
+            if isinstance(st, ast.If):
+                if ev(st.test, env):
+                    r = run(st.body, env)
+                else:
+                    r = run(st.orelse, env)
+                if r is not None:
+                    return r
+            elif isinstance(st, ast.Return):
+                return ev(st.value, env) if not isinstance(st.value, ast.Constant) else st.value.value
+            elif isinstance(st, (ast.Assign, ast.Expr)):
+                continue
+            else:
+                raise AnalysisError(f"_field_may_have_null_byte_order: statement `{ast.unparse(st)[:60]}` not understood")
+        return None
+
+    for array, one, elem in itertools.product((False, True), repeat=3):
+        res.instances += 1
+        got = run(f.node.body, {"array": array, "one": one, "elem": elem})
+        want = (not array and one) or elem
+        if bool(got) != want:
+            res.add(f"{ATTRIBUTE_CHECKER}|_field_may_have_null_byte_order|{int(array)}{int(one)}{int(elem)}",
+                    f"_field_may_have_null_byte_order answers {got} for {'an array' if array else 'an atomic'} field whose size is "
+                    f"{'1' if one else 'not 1'} unit and whose base type is {'one unit' if elem else 'wider than one unit'}; specified: {want} "
+                    "(`0 [+1] UInt:16[] z` must need a byte order)", ATTRIBUTE_CHECKER, f.node.lineno, f.name)
+    res.analysed = [ATTRIBUTE_CHECKER]
+    return res
